@@ -22,7 +22,22 @@ impl Out {
     pub fn marker(&mut self) { use std::io::Write; writeln!(self.ev, "--").unwrap(); }
 }
 
-fn short(t: &str) -> String { t.rsplit("::").next().unwrap_or(t).to_string() }
+/// the compiler's type name without its module paths, at every nesting depth (`core::option::Option<lab::support::P4>` -> `Option<P4>`)
+fn short(t: &str) -> String {
+    let mut out = String::new();
+    let mut word = String::new();
+    let cs: Vec<char> = t.chars().collect();
+    let mut i = 0;
+    while i < cs.len() {
+        let c = cs[i];
+        if c.is_alphanumeric() || c == '_' { word.push(c); i += 1; continue; }
+        if c == ':' && i + 1 < cs.len() && cs[i + 1] == ':' { word.clear(); i += 2; continue; }
+        out.push_str(&word); word.clear();
+        out.push(c); i += 1;
+    }
+    out.push_str(&word);
+    out
+}
 
 pub fn flush(out: &mut Out, res: String) {
     let mut d = DROPS.with(|d| std::mem::take(&mut *d.borrow_mut()));
@@ -86,23 +101,26 @@ pod!(P2, repr(transparent), u16, |i: u64| i as u16, |x: u16| x as u64);
 pod!(P4, repr(transparent), u32, |i: u64| i as u32, |x: u32| x as u64);
 pod!(P8, repr(transparent), u64, |i: u64| i, |x: u64| x);
 pod!(P3, repr(transparent), [u8; 3], |i: u64| [i as u8, (i >> 8) as u8, (i >> 16) as u8], |x: [u8; 3]| x[0] as u64 | (x[1] as u64) << 8 | (x[2] as u64) << 16);
-pod!(P12, repr(transparent), [u32; 3], |i: u64| [i as u32, 7, 9], |x: [u32; 3]| x[0] as u64);
-pod!(P24, repr(transparent), [u64; 3], |i: u64| [i, 1, 2], |x: [u64; 3]| x[0]);
+// every byte of the multi-word types is significant: a store that loses the tail of a value reads back as a damaged value
+pod!(P12, repr(transparent), [u32; 3], |i: u64| [i as u32, !(i as u32), (i as u32).wrapping_add(9)],
+     |x: [u32; 3]| if x[1] == !x[0] && x[2] == x[0].wrapping_add(9) { x[0] as u64 } else { 0xBAD0_0000_0000 | x[0] as u64 });
+pod!(P24, repr(transparent), [u64; 3], |i: u64| [i, !i, i ^ 0x5555],
+     |x: [u64; 3]| if x[1] == !x[0] && x[2] == x[0] ^ 0x5555 { x[0] } else { 0xBAD0_0000_0000 | (x[0] & 0xFFFF_FFFF) });
 // 16-byte aligned plain data. On x86-64 the payload is a SIMD register type: a store that assumes alignment faults at a misaligned
 // address (movaps), so an alignment-requiring store into misaligned storage is observable as a crash, not only as undefined behaviour.
 #[cfg(target_arch = "x86_64")]
 mod p16 {
     pub type Inner = std::arch::x86_64::__m128i;
-    pub fn to(i: u64) -> Inner { unsafe { std::mem::transmute([i, 3u64]) } }
-    pub fn from(x: Inner) -> u64 { let a: [u64; 2] = unsafe { std::mem::transmute(x) }; a[0] }
+    pub fn to(i: u64) -> Inner { unsafe { std::mem::transmute([i, !i]) } }
+    pub fn from(x: Inner) -> u64 { let a: [u64; 2] = unsafe { std::mem::transmute(x) }; if a[1] == !a[0] { a[0] } else { 0xBAD0_0000_0000 | (a[0] & 0xFFFF_FFFF) } }
 }
 #[cfg(not(target_arch = "x86_64"))]
 mod p16 {
     #[derive(Clone, Copy, PartialEq, Debug)]
     #[repr(C, align(16))]
     pub struct Inner(pub [u64; 2]);
-    pub fn to(i: u64) -> Inner { Inner([i, 3]) }
-    pub fn from(x: Inner) -> u64 { x.0[0] }
+    pub fn to(i: u64) -> Inner { Inner([i, !i]) }
+    pub fn from(x: Inner) -> u64 { if x.0[1] == !x.0[0] { x.0[0] } else { 0xBAD0_0000_0000 | (x.0[0] & 0xFFFF_FFFF) } }
 }
 #[derive(Clone, Copy)]
 #[repr(transparent)]
@@ -118,6 +136,12 @@ impl serde::Serialize for P16 {
 }
 impl<'de> serde::Deserialize<'de> for P16 {
     fn deserialize<D: serde::Deserializer<'de>>(d: D) -> Result<Self, D::Error> { Ok(Self::mk(u64::deserialize(d)?)) }
+}
+
+// an `Option` of plain data (the generator's handling of `Option<_>` fields; `None` never occurs, so the value is always printable)
+impl V for Option<P4> {
+    fn mk(id: u64) -> Self { Some(P4::mk(id)) }
+    fn show(&self) -> String { match self { Some(p) => p.show(), None => "none".to_string() } }
 }
 
 macro_rules! droppable {
